@@ -61,9 +61,10 @@ Fixpoint map_res {A B} (f : A -> res B) (l : list A) : res (list B) :=
   | a :: r => bind (f a) (fun b => bind (map_res f r) (fun bs => Ok (b :: bs)))
   end.
 
-(* ---------- map_(f, dm): every row is replaced by the row updated with f applied to the row as keywords; a key that names
-   no column becomes a new MixedColumn that is '' in the other rows.  Cells are stored in the
-   normal form of their column (Spec/Nf.v); a value the column type rejects makes the call raise. *)
+(* ---------- map_(f, dm): row j of the result is row j of the SOURCE updated with f of that source row;
+   a key that names no column becomes a new MixedColumn that is '' in the rows whose f did not return it.
+   Cells are stored in the normal form of their column (Spec/Nf.v); a value the column type rejects makes
+   the call raise.  The result is built row by row on a copy t of the source. *)
 Definition new_col (n : nat) (name : string) : col :=
   {| cname := name; ckind := KMixed; ccells := repeat (default_cell KMixed) n |}.
 Definition add_missing (ks : list string) (t : tab) : tab :=
@@ -75,12 +76,13 @@ Definition set_cell_of (d : upd) (j : nat) (c : col) : res col :=
   end.
 Definition set_row (t : tab) (j : nat) (d : upd) : res tab :=
   bind (map_res (set_cell_of d j) (tcols t)) (fun cs => Ok (with_cols t cs)).
-Definition map_row (f : row -> upd) (t : tab) (j : nat) : res tab :=
-  let r := read_row t j in
-  let d := dict_update (row_dict r) (f r) in
-  set_row (add_missing (map fst d) t) j d.
-Definition map_dm (f : row -> upd) (t : tab) : res tab :=
-  fold_left (fun acc j => bind acc (fun t' => map_row f t' j)) (seq 0 (tlen t)) (Ok (derived t)).
+(* the source row j as a dict, updated with what f returns for it *)
+Definition upd_row (f : row -> upd) (src : tab) (j : nat) : upd :=
+  dict_update (row_dict (read_row src j)) (f (read_row src j)).
+Definition map_row (f : row -> upd) (src t : tab) (j : nat) : res tab :=
+  let d := upd_row f src j in set_row (add_missing (map fst d) t) j d.
+Definition map_dm (f : row -> upd) (src : tab) : res tab :=
+  fold_left (fun acc j => bind acc (fun t' => map_row f src t' j)) (seq 0 (tlen src)) (Ok (derived src)).
 
 (* map_(g, column): a new column of the same type holding g(cell).  A MixedColumn keeps the computed
    object as it is; a numeric column converts it to its dtype (numbers only; None is NaN in a
